@@ -53,6 +53,13 @@ def outcome_classes(transport):
             "connect_refused_once": {"script": [["answer", 2]], "connect": ["refused"]},
             "connect_refused_all": {"script": [], "connect": ["refused"] * 8},
             "send_error": {"script": [["senderr", "EPIPE"], ["answer", 1]]},
+            # connects that fail with OSErrors outside the ConnectionError / TimeoutError families, also on a retry
+            "connect_unreachable_once": {"script": [["answer", 2]], "connect": ["unreachable"]},
+            "connect_unreachable_all": {"script": [], "connect": ["unreachable"] * 8},
+            "drop_then_hostunreach": {"script": [["drop"], ["answer", 2]], "connect": ["ok", "hostunreach", "hostunreach", "hostunreach", "hostunreach"]},
+            "drop_then_dns_failure": {"script": [["drop"], ["answer", 2]], "connect": ["ok", "gaierror", "ok"]},
+            "drop_then_multiple": {"script": [["drop"], ["drop"]], "connect": ["ok", "multiple", "multiple", "timeout", "timeout"]},
+            "connect_timeout_once": {"script": [["answer", 2]], "connect": ["timeout"]},
         })
     else:
         common.update({
